@@ -12,6 +12,15 @@ ops (symbolic ids; lists `a|b`, `-` = empty):
   wsess <s> <x> spec=<c> parties=<..> name=<n|->
   wrec <s> <x> <name> spec=<c/name|->      drec <s> <name>
   addnav <s>           krmsess <s> <x>
+  wrecs <s> <x> <prefix> <from> <count> spec=<c/name|->          MANY messages on one line:
+  wsesss <s> <prefix> <from> <count> spec=<c> parties=<..> name=<n|->
+  wrspecs <c> <prefix> <from> <count>
+    `wrspecs` is the message sequence `wrspec <c> <prefix><i>`,
+    `wrecs` is the message sequence `wrec <s> <x> <prefix><i> spec=…`, `wsesss` the sequence
+    `wsess <s> <prefix><i> spec=… parties=… name=…`, for i = from … from+count-1, each message
+    executed (and rolled back on failure) on its own: `runWith` on that op list.  Result `ok` when
+    every message was accepted, `some:<k>` when only k were.  (A scope with more sessions / records
+    than any batch or page size; the model needs no new operation for it.)
 output of every op: `<ok|err:class> <canonical dump of the whole store and all lookups>`.
 
 Address symbols: `A` is the lower-case bech32 text of account A (what `AccAddress.String()`
@@ -146,6 +155,32 @@ def parseOp (ws : List String) : Option Op :=
   | ["krmsess", s, x] => some (.keeperRemoveSession ⟨s, x⟩)
   | _ => none
 
+/-- a line that abbreviates a sequence of messages (each executed on its own) -/
+def parseBulk (ws : List String) : Option (List Op) :=
+  match ws with
+  | "wrecs" :: s :: x :: pfx :: frm :: cnt :: rest => do
+    let f ← frm.toNat?
+    let c ← cnt.toNat?
+    (List.range c).mapM fun i => parseOp ("wrec" :: s :: x :: (pfx ++ toString (f + i)) :: rest)
+  | "wsesss" :: s :: pfx :: frm :: cnt :: rest => do
+    let f ← frm.toNat?
+    let c ← cnt.toNat?
+    (List.range c).mapM fun i => parseOp ("wsess" :: s :: (pfx ++ toString (f + i)) :: rest)
+  | ["wrspecs", c, pfx, frm, cnt] => do
+    let f ← frm.toNat?
+    let n ← cnt.toNat?
+    (List.range n).mapM fun i => parseOp ["wrspec", c, pfx ++ toString (f + i)]
+  | _ => none
+
+/-- The property's conclusions on the implementation's dumped state `post` after a sequence of
+messages that started in `pre`: the invariant, and no session of a missing scope appears. -/
+def verdictBulk (pre post : State) : String :=
+  match violations acctOf post with
+  | c :: _ => s!"fail:{c}"
+  | [] =>
+    let newOrphans := (orphanSessions post).filter (fun i => i ∉ orphanSessions pre)
+    if newOrphans.isEmpty then "ok" else "fail:session_without_scope"
+
 /-- The property's conclusions evaluated on the implementation's result `r` and dumped state
 `post`, given the state `pre` before the op (the implementation's previous dump; the model's
 state at the start of a history). -/
@@ -204,6 +239,28 @@ structure DState where
 def stepOp (rm : State → UUID → State) (d : DState) (ws : List String) (impl : Option String) :
     DState × String × String :=
   let s := d.st
+  match parseBulk ws with
+  | some ops =>
+    let (s', k) := ops.foldl (fun (acc : State × Nat) op =>
+      match applyOpWith acctOf rm hashName acc.1 op with
+      | .ok t => (t, acc.2 + 1)
+      | .error _ => acc) (s, 0)
+    let out := s!"{if k = ops.length then "ok" else s!"some:{k}"} {dump s'}"
+    match impl with
+    | none => ({ st := s', lastImpl := none }, out, "-")
+    | some i =>
+      let iw := words i
+      let idump := " ".intercalate iw.tail
+      let v :=
+        match parseDump? iw.tail with
+        | none => "fail:unparsable_dump"
+        | some post =>
+          let pre := match d.lastImpl with
+            | some l => (parseDump? (words l)).getD s
+            | none => s
+          verdictBulk pre post
+      ({ st := s', lastImpl := some idump }, out, v)
+  | none =>
   match parseOp ws with
   | none => (d, "bad-op", "-")
   | some op =>
